@@ -19,7 +19,7 @@ sys.path.insert(0, VERIF)
 BASE_FLAGS = ["-std=gnu11", "-D_FILE_OFFSET_BITS=64", "-DZCHUNK_ZSTD", "-DZCHUNK_VERIF_HARNESS"]
 CBMC_FLAGS = ["--unwinding-assertions", "--pointer-overflow-check", "--signed-overflow-check",
               "--undefined-shift-check", "--div-by-zero-check", "--bounds-check", "--pointer-check",
-              "--drop-unused-functions", "--no-malloc-may-fail"]
+              "--drop-unused-functions", "--no-malloc-may-fail", "--object-bits", "10"]
 SOLVERS = {
     "default": [],
     "cadical": ["--sat-solver", "cadical"],
